@@ -26,17 +26,20 @@ const (
 	envLinger = "DL_LINGER" // ms the LAUNCHER process lingers between daemon.Run() returning true and os.Exit(0) ("slow clean-up")
 
 	envKinds = "DL_KINDS" // "h,x3,h,x0,p": what handler dl-<i> does (see kind* below); empty = all healthy
+	envCap   = "DL_CAP"   // seconds added to the hard caps of caller and daemon (gate cases keep them waiting on purpose)
 	envSteps = "DL_STEPS" // "1,1,3": the caller issues its Launch calls in steps of that many concurrent calls; empty = all at once
 
 	maxN          = 12
 	daemonIdleCap = 60 * time.Second // nothing of the harness can live longer than this
 	callerCap     = 50 * time.Second
 	flagName      = "done.flag"
+	gateName      = "gate.open" // created by the supervisor only: gated handlers wait for it before Done()
 )
 
 // kinds of handler behaviour
 const (
 	kindHealthy = "h"  // marker, sleep, predone, Done(), done record, idle
+	kindGated   = "g"  // healthy, but waits at a gate (file gate.open) between the marker and everything else
 	kindExit3   = "x3" // marker, then os.Exit(3) before Done()
 	kindExit0   = "x0" // marker, then os.Exit(0) before Done()
 	kindPanic   = "p"  // marker, then panic before Done()
@@ -47,6 +50,17 @@ func kindOf(kinds []string, i int) string {
 		return kinds[i]
 	}
 	return kindHealthy
+}
+
+// healthyKind: the handler reaches Done(), i.e. the statement covers its Launch call.
+func healthyKind(k string) bool { return k == kindHealthy || k == kindGated }
+
+func extraCap() time.Duration {
+	n, _ := strconv.Atoi(os.Getenv(envCap))
+	if n < 0 || n > 600 {
+		n = 0
+	}
+	return time.Duration(n) * time.Second
 }
 
 func parseKinds(s string) []string {
@@ -135,6 +149,13 @@ func daemonMain(idx int) {
 		os.Exit(0)
 	case kindPanic:
 		panic("daemonlaunch harness: this handler fails before Done()")
+	case kindGated:
+		// a slow start-up whose length the supervisor controls: nothing below happens, in
+		// particular Done() is not called, before the supervisor has created gate.open
+		writeAtomic(dir, fmt.Sprintf("atgate.%d", pid), Pong{Pid: pid, Ppid: os.Getppid()})
+		for !exists(filepath.Join(dir, gateName)) {
+			time.Sleep(5 * time.Millisecond) // the lifeguard ends the process if the scenario goes away
+		}
 	}
 
 	if idx < len(delays) && delays[idx] > 0 {
@@ -183,7 +204,8 @@ func daemonMain(idx int) {
 // is gone or the hard cap is reached. Nothing of the harness can outlive that.
 func lifeguard(dir string, sup, pid int, t0 time.Time) {
 	ponged := false
-	for time.Since(t0) < daemonIdleCap {
+	limit := daemonIdleCap + extraCap()
+	for time.Since(t0) < limit {
 		if !exists(dir) {
 			break
 		}
@@ -216,6 +238,7 @@ type CallReport struct {
 	PreDonePresent bool     `json:"predone_present"`
 	PreDone        *PreDone `json:"predone,omitempty"`
 	DonePresent    bool     `json:"done_present"` // done.<pid> (written after Done() returned) existed already
+	GateOpen       bool     `json:"gate_open"`    // gate.open existed when Launch returned (gated handlers)
 	FlagPresent    bool     `json:"flag_present"` // done.flag existed already
 	Stat           pstat    `json:"stat"`         // /proc/<pid>/stat when Launch returned
 	LauncherAlive  bool     `json:"launcher_alive,omitempty"`
@@ -285,7 +308,7 @@ func callerMain() {
 		f.Read(b[:])
 		killOwnGroup()
 	}()
-	time.AfterFunc(callerCap, killOwnGroup)
+	time.AfterFunc(callerCap+extraCap(), killOwnGroup)
 
 	rep := CallerReport{CallerPid: os.Getpid(), Pgid: syscall.Getpgrp(), Calls: make([]CallReport, n),
 		SigintWasIgnored: wasIgn, SigintDefault: sigDefault, SigintNote: strings.TrimSpace(sigNote)}
@@ -313,6 +336,7 @@ func callerMain() {
 		r.CallStamp = clock.Add(1)
 		pid, err, pan := safeLaunch(handlerName(i))
 		// ---- the moment Launch returned: observe before anything else ----
+		r.GateOpen = exists(filepath.Join(dir, gateName))
 		r.RetStamp = clock.Add(1)
 		r.Pid, r.Panic = pid, pan
 		if err != nil {
